@@ -43,6 +43,11 @@ CLAIMED = {
    text="Generated-input search: 400 (quick) (shape, size, request point) triples over 19 non-terminating shapes (tail loops, recursion in loops, map/foldl/for-each/transduce callbacks, handler loops that swallow errors, retry loops, generators via continuations, wind thunks, closure / allocation / port heavy loops), request point 1..3*10^6 script steps; the evaluation must end with the interrupt error at most 50000 script steps after the request (measured by the step hook) and the engine must then evaluate a probe program correctly; an evaluation still running 10 s (22 s on the retry) after the request is reported as not interruptible.",
    note="Trusted: hooks STEPS / arm_interrupt (steel-core feature verif): the request is made through ThreadStateController::interrupt exactly when the step counter reaches the generated value; a 1.5 s timer makes it for code that does not pass the counted dispatch point. This is the one check where a watchdog timeout is a violation, because not stopping is what the property forbids; it is retried once with a doubled budget first.",
    design="DESIGN.md section 4, C17"),
+ "C20": dict(
+   technique="property-based testing of the embedding API through host functions registered in the worker: generated (function, argument) pairs with a range/kind oracle, arity sweeps, and stateful lend-and-stash scenarios for host references",
+   text="Generated-input search per quick run: 6000 conversion / arity cases (identity functions at 18 parameter types, 28 integer magnitudes around every width's bounds, floats, 10 wrong kinds, compound ill-typed values, host-made extremes, a registered struct, 10 functions with 0-5 arguments) and 2000 lend scenarios (a host object lent by reference with Engine::with_mut_reference while a script stashes it in a global, box, vector, list, hash map, struct field, closure or across a continuation; then 1-3 uses after the call and optionally one during a second lend of another object). Oracle: well typed in-range arguments come back unchanged, everything else raises, nothing comes back as a different value, every use of a stale reference raises and never reaches another object; no panics. JIT on/off.",
+   note="Trusted: the registrations in svworker/src/host.rs (Engine::register_fn / register_type / with_mut_reference). A symbol passed where a String is expected may be converted (same text); an integral float passed to an integer parameter may be accepted if it arrives as the same integer.",
+   design="DESIGN.md section 4, C20"),
  "C02": dict(
    technique="differential property-based testing: generated programs and evaluation histories run under 7 (quick) / 24 (thorough) combinations of the optimisation switches (JIT, inlining, recursive inlining, closure lifting, module inlining), all compared with each other and with the reference interpreter",
    text="Generated-input search: each generated program / history (same generators as C01 and C06) is executed in forked workers under every selected combination of STEEL_JIT, STEEL_INLINE, STEEL_INLINE_RECURSIVE, STEEL_CLOSURE_LIFTING and STEEL_MODULE_INLINE, as top-level text and as a module; values, output and outcome must be identical across configurations (and equal to the reference interpreter). A failure is classed jitdiv (only the JIT differs) or cfgdiv. Bounded by the generators; no proof.",
